@@ -670,6 +670,12 @@ func (x *fx) evalCall(e *Expr, env *specEnv) *Val {
 		}
 		// function-typed variable: pure call
 		if fv := env.look(f.Name); fv != nil {
+			// a captured function variable is a pointer to its cell
+			if pt, ok := fv.T.Underlying().(*types.Pointer); ok {
+				if _, ok := pt.Elem().Underlying().(*types.Signature); ok {
+					fv = x.load(env.mem, fv)
+				}
+			}
 			if sig, ok := fv.T.Underlying().(*types.Signature); ok {
 				var avs []*Val
 				for i, a := range args {
